@@ -139,7 +139,9 @@ def generate(rng, tier):
         if pi % 4 >= 2:
             bases.reverse()
         for which in range(2):
-            mt.module_macho(s, "M%d" % which, prog, bases[which], base_svma, clone_rng(rng), merge=(pi % 3 != 0))
+            # every other program hands over the bytes of the whole __TEXT segment (starting at the image base + 0x1000)
+            # instead of the __text section
+            mt.module_macho(s, "M%d" % which, prog, bases[which], base_svma, clone_rng(rng), merge=(pi % 3 != 0), seg=(pi % 2 == 1))
         rng.u64()
         for which in range(2):
             s.add("new U%d" % which); s.add("add U%d M%d" % (which, which))
@@ -160,6 +162,11 @@ def generate(rng, tier):
                 lines.append(s.add("trace U%d C %s %s %s %d" % (which, hx(x["pc"]), regs, mid, len(sc["frames"]) + 3)))
             f = sc1["frames"][0]["func"]
             from props import C02 as _c02
+            x0 = sc1["frames"][0]
+            k2 = arch == "x86" and x0["insn"] == "jmp" and x0["index"] > 0 and x0["func"].insns[x0["index"] - 1][1].kind == "add"
+            if not k2 and not any(_c02.big_bp(x["func"]) for x in sc1["frames"]):
+                # the original placement against the truth (a mistake that is the same at every placement shows only here)
+                s.meta[lines[1]] = {"chain": [[(x["ra"] & mask) if arch == "a64" else x["ra"], x["caller"][0], x["caller"][1]] for x in sc2["frames"][:-1]]}
             if not any(_c02.big_bp(x["func"]) for x in sc1["frames"]):
                 # (walks through a function of known finding S21 of C02 continue with a garbage frame pointer taken from
                 # a register: what happens to it depends on where the stack lies - not this property's subject)
@@ -180,6 +187,14 @@ def judge(script, impl):
             rg = vlib.regs_of(impl.get(ln)) if impl.get(ln) else None
             if rg is not None and rg[2] != m["abs_sp"]:
                 bad.append((ln, "the first byte of the mapped range was not unwound with the row of the function that starts there (sp %#x expected): %s" % (m["abs_sp"], impl[ln][:300])))
+            continue
+        if "chain" in m:
+            line = impl.get(ln)
+            if line is not None and line.startswith("iter"):
+                items = [x.strip() for x in line[5:].split("|")]
+                exp = ["ok ra 0x%x sp=0x%x fp=0x%x" % tuple(c) for c in m["chain"]] + ["ok none"]
+                if items[1:] != exp:
+                    bad.append((ln, "walk at this placement differs from the true chain:\ngot : %s\ntrue: %s" % (items[1:], exp)))
             continue
         if "twin" not in m:
             continue
